@@ -1,5 +1,6 @@
 """C03 - the workspace equals a simple model after any history of API operations."""
 import ast
+import os
 import re
 
 from ..engine import rule, Ctx
@@ -323,8 +324,10 @@ def c03_b(ctx: Ctx):
 
 
 def _is_tilde(ctx, fi, e):
+    """The expression is `<path expression> + <non-empty constant suffix>`: a temporary / backup next to a file ('~', '.tmp', ...)."""
     e2 = inline(e, ctx.env(fi))
-    return isinstance(e2, ast.BinOp) and isinstance(e2.op, ast.Add) and isinstance(e2.right, ast.Constant) and e2.right.value == "~"
+    return isinstance(e2, ast.BinOp) and isinstance(e2.op, ast.Add) and isinstance(e2.right, ast.Constant) and isinstance(e2.right.value, str) \
+        and e2.right.value != "" and not isinstance(e2.left, ast.Constant) and os.sep not in e2.right.value
 
 
 @rule("C03-c")
@@ -413,4 +416,14 @@ def c03_d(ctx: Ctx):
     return out
 
 
-RULES = [c03_a, c03_b, c03_c, c03_d]
+@rule("C03-e")
+def c03_e(ctx: Ctx):
+    """Cache maintenance cannot resurrect removed jobs: listing never from the cache, update_cache decides on the reconciled cache (C08-a, C08-b)."""
+    from .c08 import c08_a, c08_b
+    res = c08_a(ctx) + c08_b(ctx)
+    for r in res:
+        r.rule = "C03-e"
+    return res
+
+
+RULES = [c03_a, c03_b, c03_c, c03_d, c03_e]
